@@ -275,10 +275,8 @@ func referrerSplit(inBytes []byte, limit int64) ([][]byte, error) {
 }
 
 // referrerAdd adds a new referrer entry to a given subject.
+// The response is read, modified, and written back in multiple store calls, the caller must hold s.referrerMu.
 func (s *Server) referrerAdd(repo store.Repo, subject digest.Digest, desc types.Descriptor) error {
-	// the response is read, modified, and written back in multiple store calls, concurrent updates to the same subject would lose entries
-	s.referrerMu.Lock()
-	defer s.referrerMu.Unlock()
 	index, err := repo.IndexGet()
 	if err != nil {
 		return err
@@ -342,9 +340,8 @@ func (s *Server) referrerAdd(repo store.Repo, subject digest.Digest, desc types.
 }
 
 // referrerDelete removes a referrer entry from a subject.
+// The caller must hold s.referrerMu.
 func (s *Server) referrerDelete(repo store.Repo, subject digest.Digest, desc types.Descriptor) error {
-	s.referrerMu.Lock()
-	defer s.referrerMu.Unlock()
 	// get the index.json
 	index, err := repo.IndexGet()
 	if err != nil {
